@@ -524,6 +524,12 @@ class Engine:
         m = re.match(r'^core::num::<impl (\w+)>::(MAX|MIN)$', s)
         if m: return IntV(z3.IntVal(INT_RANGES[m.group(1)][1 if m.group(2) == 'MAX' else 0]), m.group(1))
         if s.startswith('ZeroSized') or s == '()': return StructV('zst', 'zst', {}, lazy=False)
+        am = re.match(r'^\{(alloc\d+)(?:<imm>)?: &(.*)\}$', s)
+        if am:
+            key = 'alloc:' + am.group(1)
+            if key not in self.const_cache:
+                self.const_cache[key] = RefV(Cell(self.ex.fresh(am.group(2), am.group(1))))
+            return self.const_cache[key]
         if s == 'I80F48::ZERO' or s.endswith('I80F48::ZERO'): return IntV(z3.IntVal(0), I80)
         if s == 'I80F48::ONE' or s.endswith('I80F48::ONE'): return IntV(z3.IntVal(W), I80)
         # promoted const of the current function
@@ -571,6 +577,9 @@ class Engine:
             if isinstance(v, RefV): v = v  # promoted: reference to value
         self.const_cache[f.name] = v
         return v
+
+    def fresh_name_(self, base):
+        return self.ex.fresh_name(base)
 
     def operand(self, st, s):
         s = s.strip()
@@ -742,6 +751,11 @@ class Engine:
             vals = [self.operand(st, a) for a in split_top(rhs[1:-1], ',') if a.strip()]
             return StructV('tuple', 't', dict(enumerate(vals)), lazy=False)
         if rhs.startswith('[') and rhs.endswith(']'):
+            rm = re.match(r'^\[(.*); (\d+)\]$', rhs)
+            if rm and len(split_top(rhs[1:-1], ',')) == 1:
+                v0 = self.operand(st, rm.group(1)); n_ = int(rm.group(2))
+                if n_ <= 256:
+                    return StructV(f'[?; {n_}]', self.fresh_name_('arr'), {i: v0 for i in range(n_)}, lazy=False)
             vals = [self.operand(st, a) for a in split_top(rhs[1:-1], ',') if a.strip()]
             return StructV('array', 'a', dict(enumerate(vals)), lazy=False)
         # struct aggregate  Name { f: v, ... } -- field order unknown -> opaque struct w/ names
@@ -773,6 +787,11 @@ class Engine:
         m = re.match(r'^([\w:<>\', &]+)\((.*)\)$', rhs)
         if m:
             vals = [self.operand(st, a) for a in split_top(m.group(2), ',') if a.strip()]
+            if m.group(1).split('::')[-1] == 'Pubkey' and len(vals) == 1 and isinstance(vals[0], StructV):
+                items = [vals[0].fields.get(i) for i in range(32)]
+                if all(isinstance(x, IntV) and z3.is_int_value(z3.simplify(x.e)) for x in items):
+                    bs = bytes(z3.simplify(x.e).as_long() for x in items)
+                    return IntV(z3.IntVal(0 if not any(bs) else int.from_bytes(bs, 'little') + (1 << 40)), 'Pubkey')
             segs = re.sub(r'::<[^()]*>$', '', m.group(1)).split('::')
             if len(segs) >= 2:
                 en = re.sub(r'<.*', '', segs[-2]); vn = segs[-1]
@@ -1048,7 +1067,8 @@ class Engine:
             if isinstance(arr, StructV):
                 items = [arr.fields.get(i) for i in range(32)]
                 if all(isinstance(x, IntV) and z3.is_int_value(z3.simplify(x.e)) for x in items):
-                    return IntV(z3.IntVal(int.from_bytes(bytes(z3.simplify(x.e).as_long() for x in items), 'little') + (1 << 40)), 'Pubkey')
+                    bs_ = bytes(z3.simplify(x.e).as_long() for x in items)
+                    return IntV(z3.IntVal(0 if not any(bs_) else int.from_bytes(bs_, 'little') + (1 << 40)), 'Pubkey')
                 if '__pk' not in arr.fields: arr.fields['__pk'] = IntV(z3.Int(arr.name + '.pk'), 'Pubkey')
                 return arr.fields['__pk']
         mm = re.match(r'^<\[u8; 32\] as PartialEq>::(eq|ne)$', c)
